@@ -240,6 +240,26 @@ func (ps *cparser) primary() CExpr {
 			return &CBool{false}
 		case "nil":
 			return &CNil{}
+		case "tyof":
+			if ps.isOp("(") {
+				// raw type text up to the matching parenthesis
+				start := ps.peek().pos + 1
+				depth := 0
+				for {
+					tk := ps.next()
+					if tk.kind == "eof" {
+						ps.fail("unterminated tyof(")
+					}
+					if tk.kind == "op" && tk.s == "(" {
+						depth++
+					} else if tk.kind == "op" && tk.s == ")" {
+						depth--
+						if depth == 0 {
+							return &CCall{Fun: "tyof", Args: []CExpr{&CIdent{Name: strings.TrimSpace(ps.src[start:tk.pos])}}}
+						}
+					}
+				}
+			}
 		case "forall", "exists":
 			q := &CQuant{Forall: t.s == "forall"}
 			for {
